@@ -1,5 +1,8 @@
+import Hannibal.Props.C12QCurrent
 import Hannibal.Props.C12
 #print axioms Hannibal.C12_holds
 #print axioms Hannibal.C12_current
 #print axioms Hannibal.C12_state
 #print axioms Hannibal.wellWired12_current
+#print axioms Hannibal.C12q_holds
+#print axioms Hannibal.C12q_current
